@@ -85,15 +85,23 @@ fn conversion_error(input: usize, expected: &str, actual: &str) -> ExecutionErro
     ))
 }
 
+// The arguments stay on the value stack while the host function runs, so that a collection triggered
+// by the host function (e.g. by creating a string or a table) does not reclaim them. They are popped
+// once the function has returned.
+
 impl<Aux, T1> VmFunction<Aux> for VmFunction1<Aux, T1>
 where
     T1: TryFrom<Value>,
 {
     fn call(&self, vm: &mut Vm<Aux>) -> ShallowExecutionResult {
-        let v1 = vm.stack_pop();
-        let v1 =
-            T1::try_from(v1).map_err(|_| conversion_error(1, type_name::<T1>(), v1.type_name()))?;
-        self(vm, v1)
+        let v1 = vm.runtime_data.value_stack.peek_last(0);
+        let res = (|| {
+            let v1 = T1::try_from(v1)
+                .map_err(|_| conversion_error(1, type_name::<T1>(), v1.type_name()))?;
+            self(vm, v1)
+        })();
+        vm.runtime_data.value_stack.pop_n::<1>();
+        res
     }
 }
 
@@ -103,13 +111,17 @@ where
     T2: TryFrom<Value>,
 {
     fn call(&self, vm: &mut Vm<Aux>) -> ShallowExecutionResult {
-        let v2 = vm.stack_pop();
-        let v2 =
-            T2::try_from(v2).map_err(|_| conversion_error(2, type_name::<T2>(), v2.type_name()))?;
-        let v1 = vm.stack_pop();
-        let v1 =
-            T1::try_from(v1).map_err(|_| conversion_error(1, type_name::<T1>(), v1.type_name()))?;
-        self(vm, v1, v2)
+        let v2 = vm.runtime_data.value_stack.peek_last(0);
+        let v1 = vm.runtime_data.value_stack.peek_last(1);
+        let res = (|| {
+            let v2 = T2::try_from(v2)
+                .map_err(|_| conversion_error(2, type_name::<T2>(), v2.type_name()))?;
+            let v1 = T1::try_from(v1)
+                .map_err(|_| conversion_error(1, type_name::<T1>(), v1.type_name()))?;
+            self(vm, v1, v2)
+        })();
+        vm.runtime_data.value_stack.pop_n::<2>();
+        res
     }
 }
 
@@ -120,16 +132,20 @@ where
     T3: TryFrom<Value>,
 {
     fn call(&self, vm: &mut Vm<Aux>) -> ShallowExecutionResult {
-        let v3 = vm.stack_pop();
-        let v3 =
-            T3::try_from(v3).map_err(|_| conversion_error(3, type_name::<T3>(), v3.type_name()))?;
-        let v2 = vm.stack_pop();
-        let v2 =
-            T2::try_from(v2).map_err(|_| conversion_error(2, type_name::<T2>(), v2.type_name()))?;
-        let v1 = vm.stack_pop();
-        let v1 =
-            T1::try_from(v1).map_err(|_| conversion_error(1, type_name::<T1>(), v1.type_name()))?;
-        self(vm, v1, v2, v3)
+        let v3 = vm.runtime_data.value_stack.peek_last(0);
+        let v2 = vm.runtime_data.value_stack.peek_last(1);
+        let v1 = vm.runtime_data.value_stack.peek_last(2);
+        let res = (|| {
+            let v3 = T3::try_from(v3)
+                .map_err(|_| conversion_error(3, type_name::<T3>(), v3.type_name()))?;
+            let v2 = T2::try_from(v2)
+                .map_err(|_| conversion_error(2, type_name::<T2>(), v2.type_name()))?;
+            let v1 = T1::try_from(v1)
+                .map_err(|_| conversion_error(1, type_name::<T1>(), v1.type_name()))?;
+            self(vm, v1, v2, v3)
+        })();
+        vm.runtime_data.value_stack.pop_n::<3>();
+        res
     }
 }
 
@@ -142,18 +158,22 @@ where
     T4: TryFrom<Value>,
 {
     fn call(&self, vm: &mut Vm<Aux>) -> ShallowExecutionResult {
-        let v4 = vm.stack_pop();
-        let v4 =
-            T4::try_from(v4).map_err(|_| conversion_error(4, type_name::<T4>(), v4.type_name()))?;
-        let v3 = vm.stack_pop();
-        let v3 =
-            T3::try_from(v3).map_err(|_| conversion_error(3, type_name::<T3>(), v3.type_name()))?;
-        let v2 = vm.stack_pop();
-        let v2 =
-            T2::try_from(v2).map_err(|_| conversion_error(2, type_name::<T2>(), v2.type_name()))?;
-        let v1 = vm.stack_pop();
-        let v1 =
-            T1::try_from(v1).map_err(|_| conversion_error(1, type_name::<T1>(), v1.type_name()))?;
-        self(vm, v1, v2, v3, v4)
+        let v4 = vm.runtime_data.value_stack.peek_last(0);
+        let v3 = vm.runtime_data.value_stack.peek_last(1);
+        let v2 = vm.runtime_data.value_stack.peek_last(2);
+        let v1 = vm.runtime_data.value_stack.peek_last(3);
+        let res = (|| {
+            let v4 = T4::try_from(v4)
+                .map_err(|_| conversion_error(4, type_name::<T4>(), v4.type_name()))?;
+            let v3 = T3::try_from(v3)
+                .map_err(|_| conversion_error(3, type_name::<T3>(), v3.type_name()))?;
+            let v2 = T2::try_from(v2)
+                .map_err(|_| conversion_error(2, type_name::<T2>(), v2.type_name()))?;
+            let v1 = T1::try_from(v1)
+                .map_err(|_| conversion_error(1, type_name::<T1>(), v1.type_name()))?;
+            self(vm, v1, v2, v3, v4)
+        })();
+        vm.runtime_data.value_stack.pop_n::<4>();
+        res
     }
 }
